@@ -523,6 +523,8 @@ def run_e2e(res, rng, model, schemas, configs, found_box, label="e2e", allow_rej
             if rc != 0:
                 found_box[0] = True
                 sig = classify(err)
+                if isinstance(stats, dict) and stats.get("probe") == "macro-name":
+                    sig = "compile:macro-name"
                 if (sig, xml) in seen:
                     continue
                 seen.add((sig, xml))
@@ -556,10 +558,119 @@ def probe_schemas():
     m.fields.append(namegen.F("a", 1, "uint8"))
     s.messages.append(m)
     out.append(("header-narrowing", s))
+    # entities named like a macro that is visible in the generated headers (the library's own and the standard
+    # library's): accepted, but the preprocessor replaces the name
+    s = namegen.S("pm")
+    s.add(namegen.T("messageHeader", "composite", members=[namegen.T(n, "type", prim="uint16") for n in
+                                                           ("blockLength", "templateId", "schemaId", "version")]))
+    m = namegen.M("M", 1)
+    for i, nm in enumerate(("NULL", "EOF", "SBEPP_WARNINGS_OFF", "SBEPP_CPP14_CONSTEXPR")):
+        m.fields.append(namegen.F(nm, i + 1, "uint8"))
+    s.messages.append(m)
+    out.append(("macro-name", s))
     return out
 
 
 # ----------------------------------------------------------------------
+
+# ----------------------------------------------------------------------
+# E: identifier sweep -- every identifier the generator's own templates use, as the name of every kind of entity
+# ----------------------------------------------------------------------
+
+def generator_identifiers():
+    """identifiers occurring in string literals of /repo's sbeppc sources (raw-string code templates and
+    ordinary fmt strings), i.e. names the generated code itself may use for locals, parameters, members and
+    helper types; harvested from the CURRENT working tree on every run"""
+    ids = set()
+    src = os.path.join(REPO, "sbeppc/src/sbepp/sbeppc")
+    for f in sorted(os.listdir(src)):
+        if not f.endswith((".hpp", ".cpp")):
+            continue
+        text = open(os.path.join(src, f), errors="replace").read()
+        bodies = [m.group(1) for m in re.finditer(r'R"\((.*?)\)"', text, re.S)]
+        rest = re.sub(r'R"\((.*?)\)"', " ", text, flags=re.S)
+        bodies += [m.group(1) for m in re.finditer(r'"((?:[^"\\\n]|\\.)*)"', rest)]
+        for b in bodies:
+            b = b.replace("{{", " ").replace("}}", " ")
+            b = re.sub(r"\{[a-z_0-9]*\}", " ", b)
+            ids.update(re.findall(r"[A-Za-z_][A-Za-z0-9_]*", b))
+    kw = set(re.findall(r'"([a-z_0-9]+)"', re.search(r"cpp_keywords\{(.*?)\};", open(os.path.join(
+        src, "sbe_schema_cpp_validator.hpp")).read(), re.S).group(1)))
+    prims = set(namegen.PSIZE.keys())
+    out = sorted(i for i in ids if i not in kw and len(i) <= 32 and not i.startswith("__") and i not in ("std", "posix")
+                 and i not in namegen.PROBE_NAMES and i.lower() not in prims
+                 # the library's own macros: entities named like a macro are the recorded finding compile:macro-name
+                 and not i.startswith("SBEPP_"))
+    return out
+
+
+def sweep_schema(pkg, idents):
+    """one schema in which every identifier names a field, a last group (with a field and a nested last group of the
+    same name), a last data member, a public type, an enum value, a set choice and a composite member"""
+    T, F, G, D, M, V = namegen.T, namegen.F, namegen.G, namegen.D, namegen.M, namegen.V
+    s = namegen.S(pkg)
+    s.add(T("messageHeader", "composite", members=[T(n, "type", prim="uint16") for n in
+                                                   ("blockLength", "templateId", "schemaId", "version")]))
+    s.add(T("swDim", "composite", members=[T("blockLength", "type", prim="uint16"), T("numInGroup", "type", prim="uint8")]))
+    s.add(T("swData", "composite", members=[T("length", "type", prim="uint8"), T("varData", "type", prim="uint8", length=0)]))
+    taken = {"messageheader", "swdim", "swdata"}
+    mid = 0
+    for k, x in enumerate(idents):
+        tname = None
+        if x.lower() not in taken and not re.match(r"sw(E|S|C)\d+$", x):
+            taken.add(x.lower())
+            s.add(T(x, "type", prim="uint8"))
+            tname = x
+        s.add(T("swE%d" % k, "enum", prim="uint8", values=[V(x, 1), V("other%d" % k, 2)]))
+        s.add(T("swS%d" % k, "set", prim="uint8", values=[V(x, 3), V("other%d" % k, 0)]))
+        s.add(T("swC%d" % k, "composite", members=[T(x, "type", prim="uint16"), T("tail%d" % k, "type", prim="uint8")]))
+        for t in ("swe%d" % k, "sws%d" % k, "swc%d" % k):
+            taken.add(t)
+        mid += 1
+        m = M("swF%d" % k, mid)
+        m.fields.append(F(x, 1, tname or "uint8"))
+        m.fields.append(F("e%d" % k, 2, "swE%d" % k))
+        m.fields.append(F("s%d" % k, 3, "swS%d" % k))
+        m.fields.append(F("c%d" % k, 4, "swC%d" % k))
+        s.messages.append(m)
+        mid += 1
+        m = M("swG%d" % k, mid)
+        m.fields.append(F("f", 1, "uint8"))
+        g = G(x, 2, "swDim")
+        g.fields.append(F("y0", 3, "uint8"))
+        g2 = G(x, 4, "swDim")
+        g2.fields.append(F(x, 5, "uint8"))
+        g.groups.append(g2)
+        m.groups.append(g)
+        s.messages.append(m)
+        mid += 1
+        m = M("swD%d" % k, mid)
+        m.fields.append(F("f", 1, "uint8"))
+        g = G("grp", 2, "swDim")
+        g.fields.append(F("y", 3, "uint8"))
+        g.data.append(D(x, 4, "swData"))
+        m.groups.append(g)
+        m.data.append(D(x, 5, "swData"))
+        s.messages.append(m)
+    return s
+
+
+def sweep_schemas(rng, tier):
+    ids = generator_identifiers()
+    core = [i for i in ("last", "header", "visitor", "cursor", "c", "v", "e", "args", "value", "size", "index", "This") if i in ids]
+    chunks = []
+    rest = [i for i in ids if i not in core]
+    n = 16
+    all_chunks = [rest[i:i + n] for i in range(0, len(rest), n)]
+    chunks.append(core)
+    if tier == "thorough":
+        chunks += all_chunks
+    elif all_chunks:
+        # quick: the fixed core chunk plus two rotating chunks
+        a = rng.below(len(all_chunks))
+        chunks += [all_chunks[a], all_chunks[(a + 1 + rng.below(max(1, len(all_chunks) - 1))) % len(all_chunks)]]
+    return [(sweep_schema("sw%d" % i, ch), {"sweep_identifiers": ch, "harvested": len(ids)}) for i, ch in enumerate(chunks) if ch]
+
 
 def run(res, replay=None):
     rng = SplitMix64(res.seed)
@@ -572,7 +683,11 @@ def run(res, replay=None):
                 "(types/messages/schema/A/A_0/A_entry/min_value/...), special characters in every string attribute, every "
                 "primitive type x presence x explicit min/max/null with leading zeros: every generated header compiled alone "
                 "and a touch-everything TU (public paths, accessors, by-tag, cursors, traits, visitors, predicted "
-                "implementation names) under each configuration; (D) probes for known candidates. Non-trivial = distinct case.")
+                "implementation names) under each configuration; (D) probes for known candidates; (E) identifier sweep: every "
+                "identifier harvested from the string literals / code templates of /repo's current sbeppc sources used as the "
+                "name of a field, a last group, a nested group, a last data member, a public type, an enum value, a set choice "
+                "and a composite member (a fixed core chunk + rotating chunks in quick, all in thorough), same compile checks. "
+                "Non-trivial = distinct case.")
     ok_proof = proof_step(res)
     model = Model()
     found = [False]
@@ -649,6 +764,9 @@ def run(res, replay=None):
     run_semantics(res, model, rng, configs if thorough else configs[:2] + configs[2:], found)
     run_e2e(res, rng.fork("e2e"), model, e2e_schemas(rng.fork("gen"), res.tier), configs, found)
     run_e2e(res, rng.fork("probe"), model, [(s, {"probe": n}) for n, s in probe_schemas()], configs[:1], found, label="probe", allow_reject=True)
+    sw = sweep_schemas(rng.fork("sweep"), res.tier)
+    res.extra["identifier_sweep"] = {"harvested": sw[0][1]["harvested"] if sw else 0, "chunks": [x[1]["sweep_identifiers"] for x in sw]}
+    run_e2e(res, rng.fork("sweep2"), model, sw, configs[:2] if not thorough else configs[:3], found, label="sweep")
 
     res.extra.pop("_seen_signatures", None)
     if not ok_proof:
